@@ -237,6 +237,14 @@ func runTokenHistory(rep *core.Report, h []top, seenState map[string]bool) {
 			}
 		}
 		probe("neverIssuedneverIssuedneverIssu3d", false, false, "unknown")
+		probe("%", false, false, "unknown(sql wildcard)")
+		probe(strings.Repeat("_", 32), false, false, "unknown(sql wildcard)")
+		if len(w.issued) > 0 {
+			probe(w.issued[0][:5]+"%", false, false, "unknown(prefix wildcard)")
+			if sc := swapCase(w.issued[0]); sc != w.issued[0] {
+				probe(sc, false, false, "unknown(case variant)")
+			}
+		}
 		probe(admin, true, true, "admin")
 		rep.Sample(func() any { return map[string]any{"ops": h[:i+1], "state": sk} })
 	}
